@@ -49,7 +49,7 @@ Definition owner_eqb (a b : owner) : bool :=
 
 (* what the builder of a stage type adds: one child per template; `tp_chain` = graph.append (depends on the
    previously added child), otherwise graph.add *)
-Record tmpl := { tp_script : nat; tp_ntasks : nat; tp_chain : bool }.
+Record tmpl := { tp_script : nat; tp_ntasks : nat; tp_chain : bool; tp_blocking : bool (* child context._blocking_failure *) }.
 
 (* static description of a stage as a (possible) parent / child *)
 Record syn := {
@@ -61,6 +61,9 @@ Record syn := {
   y_before : list tmpl;              (* builder.before_stages *)
   y_after : list tmpl;               (* builder.after_stages *)
   y_fail : list tmpl;                (* builder.on_failure_stages *)
+  y_blocking : bool;                 (* context._blocking_failure: FAILED_CONTINUE counts as TERMINAL *)
+  y_milestone : option (nat * status);(* milestone_ref_id (as a stage index; out of range = not found) / milestone_status *)
+  y_expired : bool;                  (* start_time_expiry lies in the past *)
 }.
 
 Record stage := {
@@ -326,7 +329,7 @@ Definition mk_child (parent : nat) (o : owner) (reqs : list nat) (t : tmpl) : st
      s_buffered := []; s_signal := None; s_has_exc := false; s_plan_pending := false; s_hydrated := []; s_ctx := []; s_outs := [];
      s_tasks := [];
      s_syn := {| y_parent := Some parent; y_owner := Some o; y_script := tp_script t; y_ntasks := tp_ntasks t;
-                 y_before := []; y_after := []; y_fail := [] |};
+                 y_before := []; y_after := []; y_fail := []; y_blocking := tp_blocking t; y_milestone := None; y_expired := false |};
      s_onfail := false |}.
 
 Fixpoint mk_children_from (k : nat) (base parent : nat) (o : owner) (ts : list tmpl) : list stage :=
@@ -452,6 +455,18 @@ Definition handle_start_workflow (s : state) (id : nat) : hres :=
 Definition should_skip (st : stage) : bool :=
   match s_enabled st with Some false => true | _ => false end.
 
+(* _is_milestone_expired (WCP-18): the stage is skipped when its milestone stage cannot be found, or has completed
+   in another status than the required one *)
+Definition milestone_expired (s : state) (st : stage) : bool :=
+  match y_milestone (s_syn st) with
+  | None => false
+  | Some (m, req) =>
+      match get_stage s m with
+      | None => true
+      | Some ms => if status_eqb (s_status ms) req then false else is_complete (s_status ms)
+      end
+  end.
+
 Definition mutex_blocked (s : state) (i : nat) (st : stage) : bool :=
   match s_mutex st with
   | None => false
@@ -527,8 +542,10 @@ Definition start_if_ready (s : state) (id i : nat) (retry : Z) (st0 : stage) (by
   let zombie := status_eqb (s_status st) RUNNING && (s_plan_pending st || (is_nil (s_tasks st) && is_nil (children s i))) in
   if negb (start_stage_fresh (s_status st)) && negb zombie then ok []
   else if should_skip st then ok [txn [c_mark id; c_push (MSkipStage i)]]
+  else if milestone_expired s st then ok [txn [c_mark id; c_push (MSkipStage i)]]
   else if mutex_blocked s i st then ok [c_push (MStartStage i (retry + 1))]
   else if status_eqb (s_status st) NOT_STARTED && choice_claimed s i st then ok [txn [c_mark id; c_push (MCancelStage i)]]
+  else if y_expired (s_syn st) then ok [txn [c_mark id; c_push (MSkipStage i)]]
   else
     (* claim transaction *)
     let m := match s_mutex st with
@@ -784,7 +801,10 @@ Definition handle_complete_stage (s : state) (id i : nat) : hres :=
             else
               let st := if negb (is_nil new_fail) then with_onfail st true else st in
               if status_eqb x RUNNING then ok [c_mark id]
-              else if negb (can_transition (s_status st) x) then raised
+              else
+              (* _blocking_failure: FAILED_CONTINUE is converted to TERMINAL before the status is assigned *)
+              let x := if status_eqb x FAILED_CONTINUE && y_blocking (s_syn st) then TERMINAL else x in
+              if negb (can_transition (s_status st) x) then raised
               else
                 let st' := st_end st x in
                 if status_eqb x SUCCEEDED || status_eqb x FAILED_CONTINUE || status_eqb x SKIPPED then
@@ -1209,7 +1229,8 @@ Definition step_trace (orc : oracle) (s : state) (a : action) : list state :=
 Definition mk_task (disabled : bool) : task := {| t_status := NOT_STARTED; t_started := false; t_disabled := disabled |}.
 
 Definition top_syn (script : nat) : syn :=
-  {| y_parent := None; y_owner := None; y_script := script; y_ntasks := 0; y_before := []; y_after := []; y_fail := [] |}.
+  {| y_parent := None; y_owner := None; y_script := script; y_ntasks := 0; y_before := []; y_after := []; y_fail := [];
+     y_blocking := false; y_milestone := None; y_expired := false |}.
 
 Definition init_state (stages : list stage) (wmax : option Z) : state :=
   {| w_status := NOT_STARTED; w_canceled := false; w_max_jumps := wmax;
